@@ -197,6 +197,8 @@ pub enum COp {
     WlCap { stage: u32, cap: Option<u32> },
     WlAdd { stage: u32, who: String, count: u32 },
     WlRemove { stage: u32, who: String },
+    /// the admin airdrops (MintTo) until nothing is mintable
+    SellOut,
 }
 
 /// whitelist the minter is created with (built by the sale world's own helper)
@@ -288,6 +290,7 @@ fn op_kind(op: &COp) -> &'static str {
         COp::WlCap { .. } => "wl_update_stage_cap",
         COp::WlAdd { .. } => "wl_add_member",
         COp::WlRemove { .. } => "wl_remove_member",
+        COp::SellOut => "mint_to",
     }
 }
 
@@ -335,6 +338,17 @@ fn snapshot(w: &SaleWorld, who: &str) -> Pre {
     p
 }
 
+/// money moved by something that is not a minter step (whitelist creation fees): the model only follows
+/// the minter's own flows, so the sale world subtracts this drift from the balances it shows
+fn record_drift(w: &mut SaleWorld, before: &BTreeMap<(String, String), u128>) {
+    for (k, v1) in w.balances_raw() {
+        let v0 = before.get(&k).copied().unwrap_or(0);
+        if v1 != v0 {
+            *w.ext_drift.entry(k).or_insert(0) += v1 as i128 - v0 as i128;
+        }
+    }
+}
+
 /// SetWhitelist{addr} as a recorded minter step (same record layout as SaleWorld::run)
 fn attach_step(w: &mut SaleWorld, who: &str, a: &Addr) -> StepOut {
     let now = chain::now(&w.app);
@@ -367,7 +381,10 @@ pub fn run_case(c: &Case) -> CaseResult {
     let vname = VARIANTS[c.variant].name;
     let mut w = match SaleWorld::new(cfg_of(c)) {
         Ok(w) => w,
-        Err(_) => {
+        Err(e) => {
+            if std::env::var("C03_DEBUG").is_ok() {
+                eprintln!("create failed: {} {:?}: {}", vname, c.init_wl.as_ref().map(|i| i.kind.clone()), e);
+            }
             let k = c.init_wl.as_ref().map(|i| i.kind.clone()).unwrap_or("none".into());
             *res.hist.entry(format!("{}:create[{}]:err", vname, k)).or_insert(0) += 1;
             return res;
@@ -394,7 +411,18 @@ pub fn run_case(c: &Case) -> CaseResult {
     let mut stage_by: BTreeMap<(String, u64), u64> = BTreeMap::new();
     let mut purged = false;
     let accounts = w.count_accounts();
-    for cop in &c.ops {
+    let mut pending: Vec<COp> = c.ops.iter().rev().cloned().collect();
+    let mut sellout_budget = c.num_tokens + 2;
+    while let Some(cop_owned) = pending.pop() {
+        let cop = &cop_owned;
+        if let COp::SellOut = cop {
+            if w.mintable() > 0 && sellout_budget > 0 {
+                sellout_budget -= 1;
+                pending.push(COp::SellOut);
+                pending.push(COp::S(Op::MintTo { who: CREATOR.into(), recipient: BUYERS[1].into(), funds: vec![] }));
+            }
+            continue;
+        }
         let kind_now: String = w.minter_config()["whitelist"].as_str().and_then(|a| kinds.get(a).cloned()).unwrap_or("none".into());
         let hkey = |ok: bool| format!("{}[{}]:{}:{}", vname, kind_now, op_kind(cop), if ok { "ok" } else { "err" });
         let out = match cop {
@@ -404,7 +432,9 @@ pub fn run_case(c: &Case) -> CaseResult {
                     "plain" | "tiered" | "flex" | "tiered-flex" | "merkle" => sp.kind.as_str(),
                     _ => "tiered-merkle",
                 };
+                let before = w.balances_raw();
                 let r = w.make_whitelist_raw(code, &msg, fee);
+                record_drift(&mut w, &before);
                 *res.hist.entry(hkey(r.is_ok())).or_insert(0) += 1;
                 if let Ok(a) = r {
                     specs.insert(a.to_string(), sp.clone());
@@ -444,7 +474,9 @@ pub fn run_case(c: &Case) -> CaseResult {
                     }
                     _ => unreachable!(),
                 };
+                let before = w.balances_raw();
                 let r = chain::exec(&mut w.app, CREATOR, &Addr::unchecked(a), &msg, &[]);
+                record_drift(&mut w, &before);
                 *res.hist.entry(hkey(r.is_ok())).or_insert(0) += 1;
                 continue;
             }
@@ -452,6 +484,7 @@ pub fn run_case(c: &Case) -> CaseResult {
                 let Some(a) = spare.clone() else { continue };
                 attach_step(&mut w, who, &a)
             }
+            COp::SellOut => unreachable!(),
             COp::S(op) => {
                 let pre = match op {
                     Op::Mint { who, .. } | Op::MintM { who, .. } | Op::MintTo { who, .. } | Op::MintFor { who, .. } | Op::Purge { who } => {
@@ -918,9 +951,7 @@ fn history(rng: &mut Rng, p: &Plan, tag: &str) -> Case {
     ops.push(COp::S(Op::Purge { who: STRANGER.into() }));
     ops.push(pm(BUYERS[0], PUB_PRICE));
     if p.sell_out {
-        for _ in 0..p.num_tokens {
-            ops.push(COp::S(Op::MintTo { who: CREATOR.into(), recipient: BUYERS[1].into(), funds: vec![] }));
-        }
+        ops.push(COp::SellOut);
         ops.push(COp::S(Op::Purge { who: STRANGER.into() }));
         ops.push(pm(BUYERS[0], PUB_PRICE));
         ops.push(COp::S(Op::MintTo { who: CREATOR.into(), recipient: BUYERS[1].into(), funds: vec![] }));
